@@ -1472,6 +1472,13 @@ impl<D: TextDecorator> Renderer for SubRenderer<D> {
         self.flush_wrapping()?;
         let tag = self.ann_stack.clone();
 
+        // Fragment markers left over at the end of the sub-block (for
+        // example when it rendered no lines at all) move on to whatever
+        // we render next instead of being dropped.
+        let mut other = other;
+        other.flush_wrapping()?;
+        let trailing_frags = std::mem::take(&mut other.pending_frags);
+
         self.extend_lines(
             other
                 .into_lines()?
@@ -1501,6 +1508,7 @@ impl<D: TextDecorator> Renderer for SubRenderer<D> {
                     }
                 }),
         );
+        self.pending_frags.extend(trailing_frags);
 
         Ok(())
     }
